@@ -691,6 +691,16 @@ class SpecGen:
         for a in self.rect_addrs(block):
             self.add({'a': a, 'cse': ref, 'f': f, 'p': list(prec), 'd': []})
         self.cse_blocks.append(block)
+        if self.k.get('cse_twin', True) and rnd.random() < 0.25:
+            # the same formula entered a second time as an array of its own, below the first
+            # one with an ordinary cell in between: two arrays, not one
+            for c in range(col0, col0 + tw):
+                self.add({'a': mk(sheet, row0 + th, c), 'v': draw_const(rnd, ('num', 'float'))})
+            twin = (sheet, row0 + th + 1, col0, row0 + 2 * th, col0 + tw - 1)
+            ref2 = f'{sheet}!{rc_coord(twin[1], col0)}:{rc_coord(twin[3], twin[4])}'
+            for a in self.rect_addrs(twin):
+                self.add({'a': a, 'cse': ref2, 'f': f, 'p': list(prec), 'd': []})
+            self.cse_blocks.append(twin)
         if n == 0 and rnd.random() < 0.5:
             # constants right of the block: ranges can start in the block and end outside it
             for r in range(row0, row0 + th):
